@@ -30,6 +30,8 @@ PADS = ["same", "valid", "Same", "SAME", " same", "same ", "valid\n", "", "full"
         {"npbytes": "same"}, 0, 1, (1, 1),
         # words that occur in the error message / documentation of the parameter, and other plausible spellings
         "int", "str", "tuple", "'same'", "same, valid", "same|valid", "same or valid", "None", "zeros", "reflect", "s", "sam",
+        # text that Python's int() would parse
+        "1", "0", " 2", "3\n", "-1", "+1", "1_0", "\u0663", "0x1", "1e0", "1.0", {"b": "1"}, {"npstr": "1"}, {"npbytes": "2"},
         "samee", "valid ", "\tvalid", "same\n", "sa\u006de", "s\u0430me", "\uff53\uff41\uff4d\uff45", "valid\x00"]
 
 
@@ -81,6 +83,19 @@ def gen(rng, tier):
                 shapes3 = [list(base) if base else [3] for _ in NEURONS[cls]]
                 j = rng.randrange(len(shapes3)); shapes3[j] = []
                 cases.append({"kind": "neuron", "cls": cls, "shapes": shapes3, "w_in": None, "npscalar": [j]})
+            if cls == "CubaLIF" and rng.random() < 0.5:
+                # the parameters fall into GROUPS that agree internally but not with each other (time constants one shape,
+                # membrane parameters another; or any other split into two groups)
+                sa, sb = rng.sample([s2 for s2 in SHAPES], 2)
+                split = rng.choice([[0, 0, 1, 1, 1], [0, 1, 0, 1, 0], [0, 0, 0, 1, 1], [1, 0, 0, 0, 0], [0, 1, 1, 1, 1]])
+                cases.append({"kind": "neuron", "cls": cls, "shapes": [list(sa if g == 0 else sb) for g in split],
+                              "w_in": rng.choice([None, {"f": "py", "v": 1.0}])})
+            if cls in ("LIF", "LI") and rng.random() < 0.3:
+                sa, sb = rng.sample([s2 for s2 in SHAPES], 2)
+                k = len(NEURONS[cls])
+                split = [rng.choice([0, 1]) for _ in range(k)]
+                if 0 < sum(split) < k:
+                    cases.append({"kind": "neuron", "cls": cls, "shapes": [list(sa if g == 0 else sb) for g in split], "w_in": None})
             if cls == "CubaLIF" and rng.random() < 0.6:
                 # ONE parameter (each position in turn, v_threshold included) with a shape that broadcasts to the common one,
                 # together with an explicit input weight of the full shape
